@@ -20,9 +20,15 @@ def n(tier, q, t, scale=1.0):
 
 
 PROPS = {}
+NOT_APPLICABLE = {}
+
+NOTE_COMMON = 'trusted: gcc-12 ASan/UBSan/TSan runtimes, valgrind, glibc, cfitsio 4.2.0, CHOLMOD 3.0.14, SPQR, OpenBLAS as installed, and the harness itself (its numerical reference is self-checked at start); verdicts are about the executions produced, not all inputs'
 
 # ---------------------------------------------------------------- C01..C05 (h_eval)
 PROPS['C01'] = dict(
+    level_text='Stratified random exploration: every evaluation entry point is compared with an independent long-double Cox-de Boor reference under ASan/UBSan and in the -O3 production build, on tables/points that force every structural class (margins, knots, neighbours, minimum knot counts, orders 0-5, 1-9 dims). Right level because the property quantifies over a continuous input space: what matters is that each structural class occurs many times with a tolerance tight enough to expose an off-by-one interval, stride or margin shift (errors O(M)) and loose enough never to alarm on rounding.',
+    level_note=NOTE_COMMON,
+    technique='runtime monitor: independent long-double reference oracle + ASan/UBSan',
     targets=[T('h_eval.cpp', 'asan'), T('h_eval.cpp', 'prod')],
     passes=lambda tier, sc: [Pass('asan', 'h_eval.asan', 'C01', n(tier, 160, 2400, sc)),
                              Pass('prod', 'h_eval.prod', 'C01', n(tier, 160, 2400, sc))],
@@ -36,6 +42,9 @@ PROPS['C01'] = dict(
     require={'any': {'points-checked': 1000, 'points-in-margin': 100, 'points-on-knot': 100, 'dims-with-minimum-knots': 10}},
 )
 PROPS['C02'] = dict(
+    level_text='Same exploration as C01 for derivatives: every bitmask (all subsets up to 4 dims), every gradient lane in both precisions and ndsplineeval_deriv with orders 0..order+1 are compared with the exact derivative of the reference on the same polynomial piece; derivatives above the order must be exactly zero.',
+    level_note=NOTE_COMMON,
+    technique='runtime monitor: exact-derivative reference oracle + ASan/UBSan',
     targets=[T('h_eval.cpp', 'asan'), T('h_eval.cpp', 'prod')],
     passes=lambda tier, sc: [Pass('asan', 'h_eval.asan', 'C02', n(tier, 140, 2000, sc)),
                              Pass('prod', 'h_eval.prod', 'C02', n(tier, 140, 2000, sc))],
@@ -66,6 +75,9 @@ def c03_post(a, res):
 
 
 PROPS['C03'] = dict(
+    level_text='Differential exploration: all evaluation paths are run on the same inputs inside one process and compared bit-for-bit, in the templated and the PHOTOSPLINE_NO_EVAL_TEMPLATES production builds and under ASan; hook H1 records which specialised core actually executed and the run is inconclusive unless all 100 required specialisations ran.',
+    level_note=NOTE_COMMON,
+    technique='runtime differential monitor (bitwise) + core-trace hook',
     targets=[T('h_eval.cpp', 'prod'), T('h_eval.cpp', 'prod-notmpl'), T('h_eval.cpp', 'asan')],
     passes=lambda tier, sc: [Pass('prod', 'h_eval.prod', 'C03', n(tier, 330, 3000, sc)),
                              Pass('prod-notmpl', 'h_eval.prod-notmpl', 'C03', n(tier, 170, 1500, sc)),
@@ -80,6 +92,9 @@ PROPS['C03'] = dict(
     require={'any': {'comparisons:value': 2000, 'comparisons:gradient': 1000}},
 )
 PROPS['C04'] = dict(
+    level_text='Exploration with a complete per-table battery of special coordinates (every knot and both neighbours, infinities, denormals, extremes) against an independent linear-scan oracle; termination decided on logical steps by hook H2.',
+    level_note=NOTE_COMMON,
+    technique='runtime monitor: linear-scan oracle + step-cap hook + ASan/UBSan',
     targets=[T('h_eval.cpp', 'asan')],
     passes=lambda tier, sc: [Pass('asan', 'h_eval.asan', 'C04', n(tier, 640, 8000, sc))],
     level='exploration',
@@ -91,6 +106,9 @@ PROPS['C04'] = dict(
     require={'any': {'lookups-expected-success': 5000, 'lookups-expected-failure': 1000, 'bracket-checks': 3000, 'nearest-interval-checks': 500}},
 )
 PROPS['C05'] = dict(
+    level_text='Hostile-input exploration under ASan+UBSan with assertions enabled and exact-size heap buffers: arbitrary IEEE bit patterns as coordinates through every entry point of every specialised routine; each case isolated in a worker that is restarted after a crash so one defect never masks another.',
+    level_note=NOTE_COMMON,
+    technique='sanitizers (ASan+UBSan, asserts) under hostile workload',
     targets=[T('h_eval.cpp', 'asan')],
     passes=lambda tier, sc: [Pass('asan', 'h_eval.asan', 'C05', n(tier, 480, 6000, sc))],
     level='exploration',
